@@ -100,7 +100,7 @@ func RunC12(c *Ctx) {
 	}
 	nullVariants(sink)
 	workload.W1(c.Thorough(), func(cs *h.Case) {
-		if cs.P[0] < 177 {
+		if cs.P[0] < workload.TopLevelSeeds() {
 			sink(cs)
 		}
 	})
